@@ -17,4 +17,4 @@ else:
 for d in defs:
     r = engine.run_check(d, tier, int(os.environ.get('VERIF_SEED', '1')), write=False)
     print('VIOLATIONS', len(r.violations), [v['what'][:160] for v in r.violations][:3])
-    print('DRIFT', [x[:200] for x in r.drift[:2]])
+    print('DRIFT', [x[:2500] for x in r.drift[:2]])
